@@ -524,6 +524,18 @@ func (w *world) doOp(ctx context.Context, op string, g *imgen.Graph) {
 		_, _ = w.rc.BlobPut(ctx, rS, descriptor.Descriptor{}, strings.NewReader("c11-upload-"+w.uniq))
 	case "ping":
 		_, _ = w.rc.Ping(ctx, rR)
+	case "mput": // state-changing requests on the upstream: push under another tag, delete that tag, delete a blob
+		if m, err := w.rc.ManifestGet(ctx, rR); err == nil {
+			r2, _ := ref.New("r.example/proj/app:c11-copy")
+			_ = w.rc.ManifestPut(ctx, r2, m)
+			_ = w.rc.TagDelete(ctx, r2)
+		}
+	case "mdelete":
+		if m, err := w.rc.ManifestHead(ctx, rR); err == nil {
+			_ = w.rc.ManifestDelete(ctx, rR.SetDigest(m.GetDescriptor().Digest.String()))
+		}
+	case "repolist":
+		_, _ = w.rc.RepoList(ctx, "r.example")
 	}
 }
 
@@ -710,7 +722,7 @@ func genCase(r *lib.Rand) Case {
 		M.Realm = "auth-m.example"
 		c.Hosts[0].Mirror = "m.example"
 		c.Hosts = append(c.Hosts, M, HostSpec{Name: "auth-m.example", TLS: true, Auth: "none"})
-		c.Ops = []string{"manifest", "blob", "tags", "head", "manifest2"}
+		c.Ops = []string{"manifest", "blob", "tags", "head", "manifest2", "repolist", "mput"}
 	case k < 40:
 		c.Kind = "copy"
 		c.Hosts = append(c.Hosts, S)
@@ -742,14 +754,14 @@ func genCase(r *lib.Rand) Case {
 		c.Hosts[0].Mirror = "m.example"
 		c.Redirect = "t.example"
 		c.Hosts = append(c.Hosts, M, HostSpec{Name: "auth-m.example", TLS: true, Auth: "none"}, S, third("t.example"))
-		c.Ops = []string{"manifest", "blob", "copy", "tags", "referrers", "ping", "put"}
+		c.Ops = []string{"manifest", "blob", "copy", "tags", "referrers", "ping", "put", "repolist", "mput", "mdelete"}
 	}
 	return c
 }
 
 func Run(o lib.Opts) {
 	res := lib.NewResult("C11", o.Tier, o.Seed)
-	res.Rule = "one splitmix64 stream: topologies of 5-9 model hosts with distinct secrets: upstream registry (basic / bearer with get flow / bearer with identity-token post flow, refresh tokens every second issue, per-repository auth 25%, TLS 75%), its token service, 22% a mirror with its own credentials and token service, 18% a second registry (cross-registry copy, uploads), 25% a blob store that the upstream's blob GETs redirect to (0-2 extra hops; 25% of them the upstream redirecting to itself over http/https), 15% an external layer URL host, 12% an upload Location on another host or over http on the same host; third hosts answer 401 at 0-3 of their first 4 request positions with a Basic / Bearer (realm = an attacker's endpoint) / both / malformed challenge; registries answer 401 at random positions too; operations: manifest get/head (two repositories), tag list, referrers, ping, blob get, blob put, image copy (with external layers); non-trivial = any secret transmitted; distinct by case"
+	res.Rule = "one splitmix64 stream: topologies of 5-9 model hosts with distinct secrets: upstream registry (basic / bearer with get flow / bearer with identity-token post flow, refresh tokens every second issue, per-repository auth 25%, TLS 75%), its token service, 22% a mirror with its own credentials and token service, 18% a second registry (cross-registry copy, uploads), 25% a blob store that the upstream's blob GETs redirect to (0-2 extra hops; 25% of them the upstream redirecting to itself over http/https), 15% an external layer URL host, 12% an upload Location on another host or over http on the same host; third hosts answer 401 at 0-3 of their first 4 request positions with a Basic / Bearer (realm = an attacker's endpoint) / both / malformed challenge; registries answer 401 at random positions too; operations: manifest get/head (two repositories), tag list, repository list, referrers, ping, blob get, blob put, manifest put, tag delete, manifest delete, image copy (with external layers); non-trivial = any secret transmitted; distinct by case"
 	if o.Replay != "" {
 		var f struct{ Case Case }
 		b, err := os.ReadFile(o.Replay)
